@@ -355,15 +355,19 @@ def tokens_json(template):
 
 def model_json(case):
     """option record for the model, derived from what argparse makes of the command line (argparse itself is a library)"""
+    import logging
     import cutadapt.cli as cli
     patch_prefilter()
     parser = cli.get_argument_parser()
     _, in_args = inputs_of(case)
     args = parser.parse_args(list(case["argv"]) + in_args)
+    logging.disable(logging.CRITICAL)
     try:
         ads, ads2 = cli.adapters_from_args(args)
     except cli.CommandLineError:
         return None
+    finally:
+        logging.disable(logging.NOTSET)
     paired = cli.determine_paired(args)
 
     def cutoff(s):
